@@ -6,8 +6,8 @@ import (
 	"fmt"
 	"os"
 	"path/filepath"
-	"regexp"
 	"sort"
+	"strings"
 
 	"github.com/JunNishimura/Goit/internal/object"
 	"github.com/JunNishimura/Goit/internal/sha"
@@ -116,9 +116,10 @@ func (idx *Index) GetEntry(path []byte) (int, *Entry, bool) {
 func (idx *Index) GetEntriesByDirectory(dirName string) []*Entry {
 	var entries []*Entry
 
-	dirRegexp := regexp.MustCompile(fmt.Sprintf(`^%s\/.+`, regexp.QuoteMeta(dirName)))
+	// an entry is beneath the directory if its path starts with "<dirName>/" and has something after it
+	dirPrefix := []byte(dirName + "/")
 	for _, entry := range idx.Entries {
-		if dirRegexp.Match(entry.Path) {
+		if len(entry.Path) > len(dirPrefix) && bytes.HasPrefix(entry.Path, dirPrefix) {
 			entries = append(entries, entry)
 		}
 	}
@@ -131,14 +132,14 @@ func (idx *Index) IsRegisteredAsDirectory(dirName string) bool {
 		return false
 	}
 
-	dirRegexp := regexp.MustCompile(fmt.Sprintf(`^%s\/.+`, regexp.QuoteMeta(dirName)))
+	dirPrefix := dirName + "/"
 
 	left := 0
 	right := int(idx.EntryNum)
 	for {
 		middle := (left + right) / 2
 		entry := idx.Entries[middle]
-		if dirRegexp.MatchString(string(entry.Path)) {
+		if len(entry.Path) > len(dirPrefix) && strings.HasPrefix(string(entry.Path), dirPrefix) {
 			return true
 		} else if string(entry.Path) < dirName+"/" {
 			left = middle + 1
